@@ -201,18 +201,24 @@ impl ProtocolRequestBuilder for crate::Request {
             vec![]
         };
 
+        // The headers live in a hash map whose iteration order differs from one instance to the
+        // next; emit them in a stable order (by name, values of one name in their own order) so
+        // that the same request always serializes to the same bytes
+        let mut headers: Vec<HttpHeader> = self
+            .iter()
+            .flat_map(|(name, values)| {
+                values.iter().map(|value| HttpHeader {
+                    name: name.to_string(),
+                    value: value.to_string(),
+                })
+            })
+            .collect();
+        headers.sort_by(|a, b| a.name.cmp(&b.name));
+
         Ok(HttpRequest {
             method: self.method().to_string(),
             url: self.url().to_string(),
-            headers: self
-                .iter()
-                .flat_map(|(name, values)| {
-                    values.iter().map(|value| HttpHeader {
-                        name: name.to_string(),
-                        value: value.to_string(),
-                    })
-                })
-                .collect(),
+            headers,
             body,
         })
     }
